@@ -211,6 +211,7 @@ func (d *romDriver) scenario(big bool) {
 		rd   io.Reader
 		wr   io.Writer
 		end  int // remaining-to-window-end estimate used only to bias lengths
+		pos  int // file offset the next byte goes to (LoROM offset of the bus address + bytes moved so far), -1 if unknown
 	}
 	handles := map[int]*handle{}
 	nextH := 1
@@ -257,6 +258,19 @@ func (d *romDriver) scenario(big bool) {
 				val = u
 			}
 			d.emit(map[string]interface{}{"k": "setfield", "name": f.name, "val": val})
+		case x < 8 && r.Intn(2) == 0:
+			// Header.ReadHeader on a reader positioned inside a whole image, twice in a row on the same reader: each
+			// call must decode the 80 bytes at the reader's position
+			pos := []int{0x7FB0, 0x7FB0, 0, r.Intn(size - 200)}[r.Intn(4)]
+			rd := bytes.NewReader(rom.Contents)
+			rd.Seek(int64(pos), io.SeekStart)
+			for k := 0; k < 2 && pos+80*(k+1) <= size; k++ { // (only while 80 bytes are left in the image)
+				var h snes.Header
+				var e error
+				p := guard(func() { e = h.ReadHeader(rd) })
+				d.emit(map[string]interface{}{"k": "hparse", "pos": pos + 80*k, "err": errClass(e), "panic": p != "", "ver": h.HeaderVersion(),
+					"fields": flattenHeader(&h)})
+			}
 		case x < 8:
 			var buf bytes.Buffer
 			e := rom.Header.WriteHeader(&buf)
@@ -301,7 +315,10 @@ func (d *romDriver) scenario(big bool) {
 			if r.Intn(2) == 0 {
 				kind = "w"
 			}
-			h := &handle{kind: kind, end: 0x10000 - offs}
+			h := &handle{kind: kind, end: 0x10000 - offs, pos: -1}
+			if offs >= 0x8000 {
+				h.pos = bank<<15 | offs&0x7FFF
+			}
 			p := guard(func() {
 				if kind == "r" {
 					h.rd = rom.BusReader(uint32(bus))
@@ -351,17 +368,38 @@ func (d *romDriver) scenario(big bool) {
 				h.end -= got
 				d.emit(map[string]interface{}{"k": "read", "h": id, "n": n, "data": data, "err": errClass(e), "panic": p != ""})
 			} else {
+				huge := r.Intn(40) == 0
+				if huge { // lengths around and beyond 64 KiB: can never fit a 32 KiB window
+					n = []int{0x8000, 0xF900, 0xFFFF, 0x10000, 0x10001, 0x17FFF, 0x18000, 0x20001}[r.Intn(8)]
+				}
 				pl := make([]byte, n)
 				pi := make([]int, n)
 				for i := range pl {
 					pl[i] = byte(r.Intn(256))
+					if huge {
+						pl[i] = byte((i+1)*7 + 3) // reconstructed by RomTrace.tla from "plen"
+					}
 					pi[i] = int(pl[i])
+				}
+				if !huge && h.pos >= 0 && h.pos+n <= len(rom.Contents) && r.Intn(5) == 0 {
+					// write back exactly what the image already holds there (re-applying a patch): the position must still advance
+					copy(pl, rom.Contents[h.pos:h.pos+n])
+					for i := range pl {
+						pi[i] = int(pl[i])
+					}
 				}
 				var got int
 				var e error
 				p := guard(func() { got, e = h.wr.Write(pl) })
 				h.end -= got
-				d.emit(map[string]interface{}{"k": "write", "h": id, "p": pi, "n": got, "err": errClass(e), "panic": p != ""})
+				if h.pos >= 0 {
+					h.pos += got
+				}
+				ev := map[string]interface{}{"k": "write", "h": id, "p": pi, "n": got, "err": errClass(e), "panic": p != ""}
+				if huge {
+					ev["p"], ev["plen"] = []int{}, n
+				}
+				d.emit(ev)
 			}
 		}
 	}
